@@ -1029,6 +1029,67 @@ done:
 }
 
 // ----------------------------------------------------------- token decoders
+//
+// Token recording (spec/TokenStream.tla, clauses Token* / NormalFormEqualsOracle of spec/Trace_Std.tla).
+// For inputs of at most TOK_RECORD_MAX source bytes every call event carries
+//   "tk":  the tokens written by the call, one array [x, a, b, con, len, pos] each:
+//            x    1 for an extended token (bit 63), 0 for a simple one
+//            a,b  simple: value_major (21 bits), value_minor (25 bits);
+//                 extended: the high 23 and the low 23 bits of value_extension  (TLC integers are 32-bit)
+//            con  the continued bit, len the length (16 bits),
+//            pos  the driver's claim of where the token's bytes start in the source stream (the sum of the
+//                 lengths of all earlier tokens) - TLC checks the chain pos[i+1] = pos[i] + len[i] itself
+//   "sb0": the stream position of the first source byte consumed by the call, "sb": the bytes consumed.
+// For every input (whatever its size) the driver also maintains, and logs per call, what the specification
+// needs of a stream whose tokens are not logged: the running normal form (TokenStream!Normalise, computed
+// incrementally: a pending token that the next token either extends or closes) as a hash and a count, the
+// continued bit of the last token, the structure depth and whether a pop went below zero.
+
+#define TOK_RECORD_MAX 16384
+
+typedef struct {
+  int have;         // a pending normal-form token exists
+  uint64_t value;   // bits 17..63 of its repr
+  int con;
+  uint64_t len;     // may exceed 16 bits after merging
+  uint64_t hash;    // hash of the closed normal-form tokens
+  uint64_t n;       // number of closed normal-form tokens
+} tok_nf_t;
+
+// TokenStream!Mergeable: same value, of a category whose meaning is additive over concatenation of the spans
+// (base-package FILLER and STRING tokens), and either the first is continued (same chain) or both are plain
+// filler (value 0: white space, which the JSON decoder emits as stand-alone tokens).
+static int tok_mergeable(uint64_t va, int con_a, uint64_t vb) {
+  if (va != vb) return 0;
+  if (va >> 25) return 0;                       // extended, or value_major != 0  (value = repr >> 17: major at bit 25)
+  uint64_t vbc = (va >> 21) & 0xF;
+  if (vbc != WUFFS_BASE__TOKEN__VBC__FILLER && vbc != WUFFS_BASE__TOKEN__VBC__STRING) return 0;
+  return con_a || va == 0;
+}
+
+static void tok_nf_flush(tok_nf_t* f) {
+  if (!f->have) return;
+  uint64_t rec[3] = {f->value, (uint64_t)f->con, f->len};
+  f->hash = fnv_more(f->hash, (const uint8_t*)rec, sizeof rec);
+  f->n++;
+  f->have = 0;
+}
+
+static void tok_nf_add(tok_nf_t* f, uint64_t repr) {
+  uint64_t value = repr >> 17;
+  int con = (repr >> 16) & 1;
+  uint64_t len = repr & 0xFFFF;
+  if (f->have && tok_mergeable(f->value, f->con, value)) {
+    f->con = con;
+    f->len += len;
+    return;
+  }
+  tok_nf_flush(f);
+  f->have = 1;
+  f->value = value;
+  f->con = con;
+  f->len = len;
+}
 
 static void run_token(const job_t* j, const decoder_t* d, void* obj, const uint8_t* in, size_t n) {
   wuffs_base__token_decoder* dec = (wuffs_base__token_decoder*)d->upcast(obj);
@@ -1044,6 +1105,13 @@ static void run_token(const job_t* j, const decoder_t* d, void* obj, const uint8
   uint64_t tok_hash = 1469598103934665603ULL;
   size_t ntok = 0;
   uint64_t tok_len_sum = 0;
+  const int record = n <= TOK_RECORD_MAX;
+  tok_nf_t nf;
+  memset(&nf, 0, sizeof nf);
+  nf.hash = 1469598103934665603ULL;
+  int last_con = 0;           // continued bit of the last token written so far (0 before the first)
+  long sdepth = 0;            // structure depth: pushes minus pops
+  int spop_below_zero = 0;
   const char* stop = "status";
   wuffs_base__status st = wuffs_base__make_status(NULL);
   long p0 = piece_at(&j->dst, dpi++);
@@ -1057,6 +1125,8 @@ static void run_token(const job_t* j, const decoder_t* d, void* obj, const uint8
     snap_before(&sn, &s.buf, NULL);
     const uint8_t* sp0 = s.buf.data.ptr;
     size_t sl0 = s.buf.data.len;
+    size_t consumed0 = source_consumed(&s);
+    uint64_t tok_pos0 = tok_len_sum;
     g_phase = "decode_tokens";
     g_allocs_in_call = 0;
     g_in_call = 1;
@@ -1066,14 +1136,57 @@ static void run_token(const job_t* j, const decoder_t* d, void* obj, const uint8
     bool tb_ok = tb.meta.ri <= tb.meta.wi && tb.meta.wi <= tb.data.len && tb.data.ptr == toks;
     if (tb_ok) {
       for (size_t i = 0; i < tb.meta.wi; i++) {
+        uint64_t r = toks[i].repr;
         tok_hash = fnv_more(tok_hash, (const uint8_t*)&toks[i].repr, 8);
         tok_len_sum += wuffs_base__token__length(&toks[i]);
+        tok_nf_add(&nf, r);
+        last_con = (int)((r >> 16) & 1);
+        if ((r >> 42) == 0 && ((r >> 38) & 0xF) == WUFFS_BASE__TOKEN__VBC__STRUCTURE) {
+          uint64_t vbd = (r >> 17) & 0x1FFFFF;
+          if (vbd & WUFFS_BASE__TOKEN__VBD__STRUCTURE__PUSH) sdepth++;
+          if (vbd & WUFFS_BASE__TOKEN__VBD__STRUCTURE__POP) {
+            sdepth--;
+            if (sdepth < 0) {
+              spop_below_zero = 1;
+              sdepth = 0;
+            }
+          }
+        }
       }
       ntok += tb.meta.wi;
     }
     emit_call("decode_tokens", 1, &sn, &s.buf, NULL, sp0, sl0, NULL, 0, st);
-    fprintf(g_ev, ",\"tri1\":%zu,\"twi1\":%zu,\"tlen\":%zu,\"tok_ok\":%s,\"in_total\":%zu,\"tok_len_sum\":%llu}\n", tb.meta.ri,
+    fprintf(g_ev, ",\"tri1\":%zu,\"twi1\":%zu,\"tlen\":%zu,\"tok_ok\":%s,\"in_total\":%zu,\"tok_len_sum\":%llu", tb.meta.ri,
             tb.meta.wi, tb.data.len, tb_ok ? "true" : "false", source_consumed(&s), (unsigned long long)tok_len_sum);
+    fprintf(g_ev, ",\"tok_last_con\":%d,\"tok_depth\":%ld,\"tok_pop_below_zero\":%s", last_con, sdepth,
+            spop_below_zero ? "true" : "false");
+    if (record && tb_ok) {
+      uint64_t pos = tok_pos0;
+      fprintf(g_ev, ",\"tk\":[");
+      for (size_t i = 0; i < tb.meta.wi; i++) {
+        uint64_t r = toks[i].repr;
+        unsigned x = (unsigned)(r >> 63);
+        unsigned long a, b;
+        if (x) {
+          uint64_t ext = (~r >> 17) & 0x3FFFFFFFFFFFULL;  // value_extension, 46 bits
+          a = (unsigned long)(ext >> 23);
+          b = (unsigned long)(ext & 0x7FFFFF);
+        } else {
+          a = (unsigned long)((r >> 42) & 0x1FFFFF);
+          b = (unsigned long)((r >> 17) & 0x1FFFFFF);
+        }
+        fprintf(g_ev, "%s[%u,%lu,%lu,%u,%u,%llu]", i ? "," : "", x, a, b, (unsigned)((r >> 16) & 1), (unsigned)(r & 0xFFFF),
+                (unsigned long long)pos);
+        pos += r & 0xFFFF;
+      }
+      size_t consumed1 = source_consumed(&s);
+      fprintf(g_ev, "],\"sb0\":%zu,\"sb\":[", consumed0);
+      if (consumed1 >= consumed0 && consumed1 <= n) {
+        for (size_t i = consumed0; i < consumed1; i++) fprintf(g_ev, "%s%u", i > consumed0 ? "," : "", (unsigned)in[i]);
+      }
+      fprintf(g_ev, "]");
+    }
+    fprintf(g_ev, "}\n");
     free(toks);
     if (!tb_ok) {
       stop = "bad_indexes";
@@ -1098,11 +1211,14 @@ static void run_token(const job_t* j, const decoder_t* d, void* obj, const uint8
       break;
     }
   }
+  tok_nf_flush(&nf);
   fprintf(g_ev, "{\"j\":%ld,\"k\":\"end\",\"stop\":\"%s\",\"calls\":%ld,\"st\":", g_job_id, stop, calls);
   json_str(g_ev, st.repr);
   fprintf(g_ev, ",\"cls\":\"%s\",\"out_total\":%zu,\"out_hash\":\"%016llx\",\"in_total\":%zu,\"n\":%zu,\"tok_len_sum\":%llu,"
+                "\"nf_hash\":\"%016llx\",\"nf_n\":%llu,\"tok_recorded\":%s,\"tok_last_con\":%d,\"tok_depth\":%ld,"
                 "\"have_oracle\":false,\"oracle_n\":0,\"pfx\":true}\n",
-          cls_of(st.repr), ntok, (unsigned long long)tok_hash, source_consumed(&s), n, (unsigned long long)tok_len_sum);
+          cls_of(st.repr), ntok, (unsigned long long)tok_hash, source_consumed(&s), n, (unsigned long long)tok_len_sum,
+          (unsigned long long)nf.hash, (unsigned long long)nf.n, record ? "true" : "false", last_con, sdepth);
   free(wb);
   source_free(&s);
 }
